@@ -333,7 +333,7 @@ func restrictedLocked(n int, p srch.Pred) []*rg.G {
 
 // published counts used to validate restricted() (OEIS A005195 forests, A006785 triangle-free graphs)
 var (
-	forestCounts       = []int{1, 1, 2, 3, 6, 10, 20, 37, 76, 153, 329, 710, 1601, 3654}
+	forestCounts       = []int{1, 1, 2, 3, 6, 10, 20, 37, 76, 153, 329, 710, 1601, 3658}
 	triangleFreeCounts = []int{1, 1, 2, 3, 7, 14, 38, 107, 410, 1897, 12172, 105071}
 )
 
